@@ -11,7 +11,7 @@ from ..core import CaseStage, BfsStage, fresh_dir, h8, seed_slice, tuplify
 LEVEL = "model_checking"
 RULE = ("generate: full product policies x vendor/class names x addresses x sizes, hex read back with the verifier's "
         "reader and compared with the reference 48-byte record + 0xFF fill; merge: breadth-first over placement "
-        "histories (19 placements: 8 aligned, 7 half-shifted, below/straddling/after the area) against a byte-array "
+        "histories (23 placements: 8 aligned, 7 half-shifted, below/straddling/after the area, one byte over either border, one byte inside either border) against a byte-array "
         "reference with overlap and bounds detection, plus all 2^8 subsets of aligned placements; states = distinct "
         "placement multisets reached; non-trivial = output compared or refusal compared with the reference")
 ASSUMPTIONS = ["svmc/refhex.py and svmc/refuuid.py are correct (self-tested)", "hashlib SHA-1/SHA-256"]
@@ -90,7 +90,8 @@ NSLOT = 8
 AREA = SLOT * NSLOT
 AREA_ADDRS = [0x1000, 0xFF40, 0x0E1FE000]
 PLACEMENTS = ([("al", k * SLOT) for k in range(NSLOT)] + [("hs", k * SLOT + SLOT // 2) for k in range(NSLOT - 1)]
-              + [("below", -SLOT), ("lo-straddle", -SLOT // 2), ("hi-straddle", AREA - SLOT // 2), ("after", AREA)])
+              + [("below", -SLOT), ("lo-straddle", -SLOT // 2), ("hi-straddle", AREA - SLOT // 2), ("after", AREA),
+                 ("lo-by-one-byte", -1), ("hi-by-one-byte", AREA - SLOT + 1), ("shift+1", 1), ("shift-1", AREA - SLOT - 1)])
 
 
 def rec_bytes(tag):
@@ -192,7 +193,7 @@ def plan(tier):
     return [
         CaseStage("generate", lambda: gen_cases(tier), run_gen, disjoint=True, rule="policies x names x addresses x sizes"),
         BfsStage("merge-histories", merge_init, merge_step, max_depth=2 if tier == "quick" else 3,
-                 rule="placement histories over 19 placements x 3 area addresses"),
+                 rule="placement histories over 23 placements x 3 area addresses"),
         CaseStage("merge-subsets", lambda: subset_cases(tier), run_subset, disjoint=True,
                   rule="all 2^8 subsets of aligned placements (+ each single faulty placement in thorough)"),
     ]
